@@ -19,11 +19,16 @@ type CLIBase struct {
 	LogLayout  Layout     `json:"log_layout"`
 	Inv        Invocation `json:"inv"`
 	Today      string     `json:"today,omitempty"`
+	// Order is the map-order schedule of the run (cases with an order field of their own overwrite it)
+	Order OrderPlan `json:"order"`
 }
 
 func (b *CLIBase) world() World {
 	w := stdWorld(render(b.Book, b.BookLayout), render(b.Log, b.LogLayout))
 	w.Argv = b.Inv.Argv()
+	if b.Order.Mode != "" {
+		w.Order = b.Order
+	}
 	return w
 }
 
@@ -103,6 +108,7 @@ func genCLIBase(t *rapid.T, o baseOpts) CLIBase {
 		b.LogLayout = genLayout(t, "log_layout")
 	}
 	b.Inv = genInvocation(t, o.shapes, b.Book, b.Log)
+	b.Order = OrderPlan{Mode: rapid.SampledFrom([]string{"asc", "desc", "shuffle", "rotate"}).Draw(t, "base_order"), Seed: rapid.Uint64().Draw(t, "base_order_seed"), Arg: 1}
 	return b
 }
 
